@@ -125,6 +125,11 @@ func VerifyFunc(w *World, spec *FuncSpec, prop string, safetyAll bool) (res *Fun
 	// vacuity guard: the entry hypotheses must be satisfiable
 	x.obls = append(x.obls, &Obligation{Name: res.Fn + "#vacuity:requires satisfiable", Fn: res.Fn, Kind: "vacuity", Hyps: []string{st.pc}, Goal: "", VC: x.vc, Props: spec.Props})
 	x.runBody(fr, st)
+	if len(x.returnPCs) > 0 && !spec.Implicit {
+		// vacuity guard: with everything assumed along the way (callee contracts, effects, at-call
+		// assumptions, loop invariants) at least one return must remain reachable
+		x.obls = append(x.obls, &Obligation{Name: res.Fn + "#vacuity:some return reachable", Fn: res.Fn, Kind: "vacuity", Hyps: []string{or(x.returnPCs...)}, Goal: "", VC: x.vc, Props: spec.Props})
+	}
 	for _, e := range spec.Exits {
 		if x.clauseActive(e) && x.exitHits[e.Name()] == 0 {
 			x.curState = fr.entry
